@@ -98,7 +98,7 @@ func genVP9Frame(t *core.Tape, mtu int) vp9Frame {
 	for w.nbit%8 != 0 {
 		w.put(uint64(t.Intn(2)), 1)
 	}
-	size := nalSize(t, mtu, len(w.b), 3)
+	size := nalSize(t, mtu, len(w.b), []int{3, 11, 3}[t.Intn(3)])
 	if size < len(w.b)+1 {
 		size = len(w.b) + 1
 	}
